@@ -6,11 +6,11 @@ CONSTANTS
   Keys = {1, 2, 3}
   InitList <- GenInitList
   SaltSz <- GenSaltSz
-  Senders = {1, 2, 3, 4, 5, 6, 7, 8, 10}
-  Targets = {1, 2, 3, 4, 5, 10}
+  Senders = {1, 2, 3, 4, 5, 6, 7, 8, 10, 14}
+  Targets = {1, 2, 3, 4, 5, 10, 14}
   DnsPort = {2, 5, 8}
-  Allowed = {1, 2, 4, 5, 10}
-  Unsendable = {}
+  Allowed = {1, 2, 4, 5, 10, 14}
+  Unsendable = {14}
   DisarmFirst = TRUE
   Fam <- GenFam
   DgAlpha <- GenDgReal
